@@ -308,7 +308,7 @@ def gen_c17(rng: random.Random) -> dict:
                 f["key"] = rng.randint(1, 5)
                 msgs.append([n, f])
             elif r < 0.6:
-                msgs.append(["CameraImageResponse", {"key": pick(rng, cam_keys), "data": "%02x" % rng.getrandbits(8) * rng.randint(0, 4), "done": rng.random() < 0.35}])
+                msgs.append(["CameraImageResponse", {"key": pick(rng, cam_keys), "data": "%02x" % rng.getrandbits(8) * pick(rng, [0, 1, 2, 3, 4, 4, 64, 65, 300]), "done": rng.random() < 0.35}])
             elif r < 0.8:
                 n = pick(rng, list(OTHER.values()))
                 f = rand_fields(rng, n)
@@ -334,7 +334,7 @@ def gen_c17(rng: random.Random) -> dict:
                 if n == "VoiceAssistantRequest":
                     f = {"start": rng.random() < 0.7, "conversation_id": "c%d" % rng.randint(1, 9), "flags": rng.randint(0, 3), "wake_word_phrase": pick(rng, ["", "ok nabu"])}
                 elif n == "VoiceAssistantAudio":
-                    f = {"data": "%02x" % rng.getrandbits(8), "end": rng.random() < 0.3}
+                    f = {"data": "%02x" % rng.getrandbits(8) * pick(rng, [1, 1, 2, 64, 65, 1024]), "end": rng.random() < 0.3}
                 else:
                     f = {"success": rng.random() < 0.5}
                 msgs.append([n, f])
